@@ -1,4 +1,6 @@
-use crate::internal::{consts, MiniAllocator, ObjType, SectorInit};
+use crate::internal::{
+    consts, MiniAllocator, ObjType, SectorInit, Version,
+};
 use std::io::{self, BufRead, Read, Seek, SeekFrom, Write};
 use std::sync::{Arc, RwLock, Weak};
 
@@ -82,9 +84,12 @@ impl<F: Read + Write + Seek> Stream<F> {
     /// case the position becomes the new end of the stream.
     pub fn set_len(&mut self, size: u64) -> io::Result<()> {
         if size != self.total_len {
+            let minialloc = self.minialloc()?;
+            // Refuse an impossible length before anything is written, the
+            // handle's own buffered bytes included.
+            check_stream_len(minialloc.read().unwrap().version(), size)?;
             let new_position = self.current_position().min(size);
             self.flush_changes()?;
-            let minialloc = self.minialloc()?;
             resize_stream(
                 &mut minialloc.write().unwrap(),
                 self.stream_id,
@@ -403,6 +408,22 @@ fn write_data_to_stream<F: Read + Write + Seek>(
     })
 }
 
+/// A FAT cannot address more than MAX_REGULAR_SECTOR sectors, so no stream can
+/// be longer than that many sectors.  Refusing such a length up front also
+/// keeps the rounding to whole sectors from overflowing.
+fn check_stream_len(version: Version, stream_len: u64) -> io::Result<()> {
+    let max_stream_len =
+        consts::MAX_REGULAR_SECTOR as u64 * version.sector_len() as u64;
+    if stream_len > max_stream_len {
+        invalid_input!(
+            "Cannot set stream length to {} bytes (maximum is {} bytes)",
+            stream_len,
+            max_stream_len
+        );
+    }
+    Ok(())
+}
+
 /// If `new_stream_len` is less than the stream's current length, then the
 /// stream will be truncated.  If it is greater than the stream's current size,
 /// then the stream will be padded with zero bytes.
@@ -411,19 +432,7 @@ fn resize_stream<F: Read + Write + Seek>(
     stream_id: u32,
     new_stream_len: u64,
 ) -> io::Result<()> {
-    // A FAT cannot address more than MAX_REGULAR_SECTOR sectors, so no stream
-    // can be longer than that many sectors.  Refuse such a length before
-    // anything is changed (and before rounding it up to whole sectors could
-    // overflow).
-    let max_stream_len = consts::MAX_REGULAR_SECTOR as u64
-        * minialloc.version().sector_len() as u64;
-    if new_stream_len > max_stream_len {
-        invalid_input!(
-            "Cannot set stream length to {} bytes (maximum is {} bytes)",
-            new_stream_len,
-            max_stream_len
-        );
-    }
+    check_stream_len(minialloc.version(), new_stream_len)?;
     let (old_start_sector, old_stream_len) = {
         let dir_entry = minialloc.dir_entry(stream_id);
         debug_assert_eq!(dir_entry.obj_type, ObjType::Stream);
